@@ -310,7 +310,7 @@ func c07Fallback(c *Ctx, sx *symx.Ctx, pf *ssa.Function) {
 	var loopM *ssau.RangeLoop
 	for _, l := range ssau.RangeLoops(pf) {
 		l := l
-		if l.Over == ssa.Value(find) {
+		if ssau.ElementsFrom(l.Over, find) {
 			loopM = &l
 		}
 	}
@@ -331,7 +331,7 @@ func c07Fallback(c *Ctx, sx *symx.Ctx, pf *ssa.Function) {
 		}
 		switch b := fa.X.(type) {
 		case *ssa.IndexAddr:
-			return b.X == ssa.Value(find) && b.Index == loopM.Index
+			return b.X == loopM.Over && b.Index == loopM.Index
 		case *ssa.Alloc:
 			// range copy: stored once from matches[idx]
 			n, good := 0, false
@@ -339,7 +339,7 @@ func c07Fallback(c *Ctx, sx *symx.Ctx, pf *ssa.Function) {
 				if st, ok := ref.(*ssa.Store); ok && st.Addr == ssa.Value(b) {
 					n++
 					if ld, ok := st.Val.(*ssa.UnOp); ok {
-						if ia, ok := ld.X.(*ssa.IndexAddr); ok && ia.X == ssa.Value(find) && ia.Index == loopM.Index {
+						if ia, ok := ld.X.(*ssa.IndexAddr); ok && ia.X == loopM.Over && ia.Index == loopM.Index {
 							good = true
 						}
 					}
